@@ -51,28 +51,49 @@ pub fn pipe_pair(conn: &str) -> (Pipe, Pipe) {
 pub struct RelayCtl {
     /// cut the connection once this many frames were forwarded (both directions counted together)
     pub cut_after_frames: Option<u64>,
-    /// cut now (checked at every frame boundary and whenever the relay is polled)
+    /// cut now (checked at every frame boundary)
     pub cut_now: bool,
     pub frames: u64,
     pub closed: bool,
 }
 
-/// A connection whose bytes pass through two gated relay tasks (one per direction). The relay
-/// forwards whole frames, split into seeded fragments, and closes both directions when told to.
-pub fn relayed_pair(conn: &str, seed: u64, ctl: Arc<Mutex<RelayCtl>>) -> (Pipe, Pipe) {
+/// Handle on a relayed connection: lets a scenario cut it
+#[derive(Clone)]
+pub struct Relay {
+    pub ctl: Arc<Mutex<RelayCtl>>,
+    stop: Arc<tokio::sync::Notify>,
+}
+
+impl Relay {
+    pub fn cut(&self) {
+        self.ctl.lock().unwrap().cut_now = true;
+        self.stop.notify_waiters();
+    }
+    pub fn frames(&self) -> u64 {
+        self.ctl.lock().unwrap().frames
+    }
+}
+
+/// A connection whose bytes pass through two gated relay tasks (one per direction). A relay task
+/// forwards whole frames, split into seeded fragments with a scheduling point between fragments,
+/// and both directions go down together, at a frame boundary, when the connection is cut.
+pub fn relayed_pair(conn: &str, seed: u64, cut_after_frames: Option<u64>) -> (Pipe, Pipe, Relay) {
     let (a, ra) = tokio::io::duplex(64 * 1024);
     let (rb, b) = tokio::io::duplex(64 * 1024);
     let (ra_r, ra_w) = tokio::io::split(ra);
     let (rb_r, rb_w) = tokio::io::split(rb);
-    let stop = Arc::new(tokio::sync::Notify::new());
+    let relay = Relay { ctl: Arc::new(Mutex::new(RelayCtl { cut_after_frames, ..Default::default() })), stop: Arc::new(tokio::sync::Notify::new()) };
     for (dir, mut r, mut w, sd) in [("ab", ra_r, rb_w, seed), ("ba", rb_r, ra_w, seed ^ 0x5555)] {
-        let ctl = ctl.clone();
-        let stop = stop.clone();
+        let ctl = relay.ctl.clone();
+        let stop = relay.stop.clone();
         let name = format!("relay:{conn}:{dir}");
         let _ = ractor::concurrency::spawn_named(Some(&name), async move {
             let mut rng = crate::trace::Rng(sd);
             loop {
-                if { let g = ctl.lock().unwrap(); g.closed || g.cut_now } {
+                if {
+                    let g = ctl.lock().unwrap();
+                    g.closed || g.cut_now
+                } {
                     break;
                 }
                 // one frame: 8-byte big-endian length + payload
@@ -90,7 +111,13 @@ pub fn relayed_pair(conn: &str, seed: u64, ctl: Arc<Mutex<RelayCtl>>) -> (Pipe, 
                 }
                 {
                     let mut g = ctl.lock().unwrap();
-                    if g.closed || g.cut_now || g.cut_after_frames.is_some_and(|n| g.frames >= n) {
+                    if g.closed || g.cut_now {
+                        break;
+                    }
+                    if g.cut_after_frames.is_some_and(|n| g.frames >= n) {
+                        // the scripted cut point: this frame and everything behind it is lost
+                        g.cut_now = true;
+                        verif::emit_kv("obs.cut", 0, g.frames as i64, vec![]);
                         break;
                     }
                     g.frames += 1;
@@ -122,11 +149,10 @@ pub fn relayed_pair(conn: &str, seed: u64, ctl: Arc<Mutex<RelayCtl>>) -> (Pipe, 
             // closing: both directions go down together (a cut TCP connection)
             ctl.lock().unwrap().closed = true;
             stop.notify_waiters();
-            stop.notify_one();
             let _ = w.shutdown().await;
         });
     }
-    (Pipe { stream: a, conn: conn.to_string(), side: "d".into() }, Pipe { stream: b, conn: conn.to_string(), side: "a".into() })
+    (Pipe { stream: a, conn: conn.to_string(), side: "d".into() }, Pipe { stream: b, conn: conn.to_string(), side: "a".into() }, relay)
 }
 
 /// Node-event subscription that records every callback as an observation
@@ -233,4 +259,20 @@ pub async fn spoof_name(conn: &str, claimed: &str, nonce: u64, to: &ActorRef<Nod
             }
         }
     });
+}
+
+/// The one visible session of a node, once it reports ready: (session actor, its node id)
+pub async fn ready_session(node: &ActorRef<NodeServerMessage>) -> Option<(ActorRef<ractor_cluster::NodeSessionMessage>, u64)> {
+    let m = ractor::call_t!(node, NodeServerMessage::GetSessions, 10_000).ok()?;
+    for (id, s) in m {
+        if ractor::call_t!(s.actor, ractor_cluster::NodeSessionMessage::GetReadyState, 10_000).unwrap_or(false) {
+            return Some((s.actor.clone(), id as u64));
+        }
+    }
+    None
+}
+
+/// The proxy a session holds for the remote actor with this pid (a child of the session)
+pub fn proxy_of(session: &ractor::ActorCell, pid: u64) -> Option<ractor::ActorCell> {
+    session.get_children().into_iter().find(|c| !c.get_id().is_local() && c.get_id().pid() == pid)
 }
